@@ -393,7 +393,7 @@ func (g *G) genHTTPMethod(verb, path string, allowPath bool) *HTTPMethod {
 	if chance(r, 1, 3) {
 		q := &Query{Schema: g.genObjectSchema(2, g.refable)}
 		if chance(r, 1, 2) {
-			q.Example = pick(r, []string{"a=1", "a=1&b=2", "page=2&limit=10", "q=x y"})
+			q.Example = pick(r, []string{"a=1", "a=1&b=2", "page=2&limit=10", "q=x y", `q="x"`, `p=a\b`})
 		}
 		if chance(r, 1, 3) {
 			q.Format = pick(r, []string{"htmlFormEncoded", "noFormat"})
@@ -617,10 +617,10 @@ func Gen(r Rnd) *Doc {
 	if chance(r, 1, 2) {
 		in := &Info{}
 		if chance(r, 2, 3) {
-			in.HasTitle, in.Title = true, pick(r, []string{"My API", "Cats", "api v2", "T"})
+			in.HasTitle, in.Title = true, pick(r, []string{"My API", "Cats", "api v2", "T", `say "hi"`, `back\slash`, `C:\dir\"x"`, "# not a comment", "a // b", "(paren)"})
 		}
 		if chance(r, 1, 2) {
-			in.HasVersion, in.Version = true, pick(r, []string{"1.0", "0.3", "2", "v1 beta"})
+			in.HasVersion, in.Version = true, pick(r, []string{"1.0", "0.3", "2", "v1 beta", `1.0 "rc"`, `2\3`})
 		}
 		if !in.HasTitle && !in.HasVersion || chance(r, 1, 3) {
 			in.Description = genDescription(r)
